@@ -483,6 +483,54 @@ pub fn lalr_glr_grammar(rng: &mut Rng, name: &str) -> Value {
     grammar(name, rules, vec![pattern("\\s")], vec![], vec![conflict])
 }
 
+/// Wide operator sets next to EXTERNAL tokens: `source → statement+`, `statement → expr (';' | ext_bang [| ext_at])`,
+/// `expr → name | expr OP expr` with 8–11 left-associative operators.  After a name, `reduce expr` is shared
+/// by ≥ 10 look-aheads, among them the external tokens (which sort first in the generator's symbol order but
+/// carry the largest… the smallest ids after `end`): a small-state group the runtime has to find them in.
+/// Returns (grammar, scanner.c, samples for the sentence generator).
+#[allow(dead_code)]
+pub fn wide_op_external_grammar(rng: &mut Rng, name: &str) -> (Value, String, String) {
+    let ops = ["+", "-", "*", "/", "%", "^", "<", ">", "&", "|", "="];
+    let n_ops = rng.range(8, ops.len());
+    let two_ext = rng.chance(1, 2);
+    let mut alts = vec![sym("name")];
+    for op in ops.iter().take(n_ops) {
+        alts.push(prec("PREC_LEFT", rng.range(1, 4) as i64, seq(vec![sym("expr"), s(op), sym("expr")])));
+    }
+    let mut enders = vec![s(";"), sym("ext_bang")];
+    if two_ext {
+        enders.push(sym("ext_at"));
+    }
+    let rules: Vec<(String, Value)> = vec![
+        ("source".into(), rep1(sym("statement"))),
+        // the keyword statements only add symbols, so that the state after a name (one reduce shared by
+        // all operators and enders) has at most half as many entries as there are symbols: a SMALL state
+        ("statement".into(), {
+            let mut forms = vec![seq(vec![sym("expr"), choice(enders)])];
+            let kws = ["let", "var", "del", "run", "try", "end", "use", "put", "get", "set", "new", "old", "box", "fix", "mix", "zip"];
+            for kw in kws.iter().take(n_ops + 4 + rng.below(4)) {
+                forms.push(seq(vec![s(kw), sym("name"), s(":")]));
+            }
+            choice(forms)
+        }),
+        ("expr".into(), choice(alts)),
+        ("name".into(), pattern("[x-z]+")),
+    ];
+    let mut g = grammar(name, rules, vec![pattern("\\s")], vec![], vec![]);
+    let mut ext = vec![sym("ext_bang")];
+    if two_ext {
+        ext.push(sym("ext_at"));
+    }
+    g["externals"] = Value::Array(ext);
+    let scanner = format!(
+        "#include \"tree_sitter/parser.h\"\nenum {{ EXT_BANG, EXT_AT }};\nvoid *tree_sitter_{n}_external_scanner_create(void) {{ return 0; }}\nvoid tree_sitter_{n}_external_scanner_destroy(void *p) {{ (void)p; }}\nunsigned tree_sitter_{n}_external_scanner_serialize(void *p, char *b) {{ (void)p; (void)b; return 0; }}\nvoid tree_sitter_{n}_external_scanner_deserialize(void *p, const char *b, unsigned n) {{ (void)p; (void)b; (void)n; }}\nbool tree_sitter_{n}_external_scanner_scan(void *p, TSLexer *l, const bool *v) {{\n  (void)p;\n  while (l->lookahead == ' ' || l->lookahead == '\\n' || l->lookahead == '\\t') l->advance(l, true);\n  if (v[EXT_BANG] && l->lookahead == '!') {{ l->advance(l, false); l->result_symbol = EXT_BANG; return true; }}\n  if ({two} && v[EXT_AT] && l->lookahead == '@') {{ l->advance(l, false); l->result_symbol = EXT_AT; return true; }}\n  return false;\n}}\n",
+        n = name,
+        two = if two_ext { 1 } else { 0 }
+    );
+    let samples = "{\"externals\": {\"ext_bang\": [\"!\"], \"ext_at\": [\"@\"]}}".to_string();
+    (g, scanner, samples)
+}
+
 /// Make binary operators alternatives of ONE rule (`binary: choice(prec.left(1, e + e), prec.right(1, e ^ e))`).
 /// `mixed`: additionally put two operators with different texts on the same level with opposite
 /// associativity inside one rule (the yacc-style "same level, mixed associativity" table).
